@@ -17,6 +17,7 @@ func c17(c *Ctx) {
 	r := c.R
 	c17more(c)
 	c17delete(c)
+	c17abortedWithError(c)
 	r.Decides("in reservation-first mode the eviction is unreachable while the reservation lookup failed, the reservation is pending, expired, or neither scheduled nor preempted-complete, or the schedule-success preparation (incl. the same-node abort) failed")
 	r.Decides("a job in a terminal phase returns before any call that evicts, creates/deletes a reservation or writes status")
 	r.Decides("the evictor is called only when the eviction condition is not True, the reason is not Evicting and the reservation is not bound by another pod; after a successful eviction the Evicting condition is written before returning")
